@@ -101,6 +101,17 @@ def numbering_agreement(prog):
                      "? no function sorts unique_variables(): the numbering of named variables was not found")]
     ref = [s_ for s_ in sites if s_[0].name == "variable_mapping"] or sites[:1]
     want = ref[0][2]
+    # the numbering itself is documented: `variable_mapping` numbers the names in lexicographic order (its doc comment and
+    # the suite's `..._is_lexicographic` test say so, and weights files / configured orders written against it rely on it)
+    if ref[0][0].name == "variable_mapping" and "?" not in want and want != "Ord of the name":
+        f, cs, sig = ref[0]
+        out.append(inst("MP", "%s:variable-numbering:documented-order" % f.npath, VIOLATION, f, cs.line,
+                        "variable_mapping numbers the variable names by %s; the documented numbering is the lexicographic order of the "
+                        "names (`Ord` of the String): names that the two orders rank differently (x2 / x10) get other labels than "
+                        "the text's documented numbering says" % sig[:100]))
+    elif ref[0][0].name == "variable_mapping" and want == "Ord of the name":
+        out.append(inst("MP", "%s:variable-numbering:documented-order" % ref[0][0].npath, OK, ref[0][0], ref[0][1].line,
+                        "names are numbered in lexicographic order, as documented"))
     for f, cs, sig in sites:
         bad = sig != want
         und = "?" in sig or "?" in want
